@@ -814,6 +814,18 @@ mod sh {
             scen.push(("lzipr".into(), w, hex(&members.concat()), "end".into(), "lzip.empty_members".into()));
         }
 
+        // num_workers = 0 (the crate clamps the request into 1..=256): every type must still work
+        {
+            let m: Vec<u8> = [lzip_member(&payload(rng, 50)), lzip_member(&payload(rng, 70))].concat();
+            scen.push(("lzipr".into(), 0, hex(&m), "end".into(), "workers0".into()));
+            let u: Vec<u8> = [unit(rng), unit(rng)].concat().into_iter().chain(std::iter::once(0)).collect();
+            scen.push(("lzma2r".into(), 0, hex(&u), "end".into(), "workers0".into()));
+            for kind in ["lzma2w", "lzipw"] {
+                scen.push((kind.into(), 0, format!("text:{}:w{}+f+w{}", rng.below(1 << 30), UNIT + 10, 100), "end".into(), "workers0".into()));
+                scen.push((kind.into(), 0, format!("text:{}:w{}", rng.below(1 << 30), 50), "end".into(), "workers0".into()));
+            }
+        }
+
         // ---- writers ----
         // LZMA2WriterMT with a preset dictionary in its options and more than one work unit whose data
         // repeats the preset dictionary: every unit must still be self-contained
